@@ -120,6 +120,13 @@ func (s *Searcher) verifC05ReadSortedRRCs(blocks []*block, segkey string) ([]*su
 // VerifC05Sched builds a Searcher over the synthetic segment requests and calls Fetch (generated copy) until
 // io.EOF or maxFetches calls.  GOMAXPROCS is set to maxBlocks for the duration (fetchRRCs reads it).
 func VerifC05Sched(mode int, maxBlocks int, segs []VerifC05Seg, maxFetches int) (batches [][]VerifC05Rec, eof bool, err error) {
+	return VerifC05SchedArrival(mode, maxBlocks, segs, maxFetches, nil)
+}
+
+// VerifC05SchedArrival: as VerifC05Sched, but the segment requests reach initializeQSRs in the order given by
+// arrival (a permutation of the indices of segs; nil = as listed).  Segment keys, block and record numbers stay
+// those of the listed order, so two calls with different arrival orders describe the SAME data.
+func VerifC05SchedArrival(mode int, maxBlocks int, segs []VerifC05Seg, maxFetches int, arrival []int) (batches [][]VerifC05Rec, eof bool, err error) {
 	sm, err := verifC05Mode(mode)
 	if err != nil {
 		return nil, false, err
@@ -172,6 +179,19 @@ func VerifC05Sched(mode int, maxBlocks int, segs []VerifC05Seg, maxFetches int) 
 		remainingBlocksSorted: make([]*block, 0),
 		unsentRRCs:            make([]*sutils.RecordResultContainer, 0),
 		segEncToKey:           utils.NewTwoWayMap[uint32, string](),
+	}
+	if arrival != nil {
+		if len(arrival) != len(qsrs) {
+			return nil, false, fmt.Errorf("arrival")
+		}
+		perm := make([]*query.QuerySegmentRequest, 0, len(qsrs))
+		for _, i := range arrival {
+			if i < 0 || i >= len(qsrs) {
+				return nil, false, fmt.Errorf("arrival")
+			}
+			perm = append(perm, qsrs[i])
+		}
+		qsrs = perm
 	}
 	verifC05PendingQSRs = qsrs // handed to initializeQSRs (copy) on the first Fetch
 
